@@ -272,7 +272,7 @@ def BVec.WF (v : BVec) : Prop := v.data.length = nWords v.len ∧ ∀ w ∈ v.da
 
 /-- the additional property that `from_bools`/`push`/`set`/`and`/`or`/`xor` keep but `filled(_, true)`
 and `not` break: no bit is set at or beyond `len`. -/
-def BVec.Clean (v : BVec) : Prop := ∀ k j, 64 * k + j ≥ v.len → j < 64 → getBit (v.data.getD k 0) j = false
+def BVec.Clean (v : BVec) : Prop := ∀ q, v.len ≤ q → bitmapNull v.data q = false
 
 /-! ## CodecSelector / TypeSpecificCompressor (codec.rs) -/
 
@@ -365,9 +365,13 @@ def decompressInts (c : CData) : Res (List Nat) :=
     | .ok p => p.unpack
     | .err => .err
     | .panic => .panic)
-  | .runLength => (match Rle.fromBytes c.data with
-    | some r => .ok r.decode
-    | none => .err)
+  | .runLength =>
+    -- `Vec::<Run>::with_capacity(run_count)` panics ("capacity overflow") when
+    -- `run_count * 16 > isize::MAX`, before any run is read
+    if c.data.length ≥ 8 ∧ ofLe (c.data.take 8) ≥ 2 ^ 59 then .panic
+    else (match Rle.fromBytes c.data with
+      | some r => .ok r.decode
+      | none => .err)
   | _ => .err
 
 def decodeSigned (r : Res (List Nat)) : Res (List (BitVec 64)) :=
